@@ -114,6 +114,74 @@ Proof. rewrite !enc_value_first_byte. intros H E. apply H. apply vtag_injective.
 Lemma strlist_empty_vs_one_empty : enc_strlist [] <> enc_strlist [[]].
 Proof. vm_compute. discriminate. Qed.
 
+(* ---------- re-used BuildValue objects ---------- *)
+
+Lemma enc_value_view v : enc_value (view v) = enc_value v.
+Proof.
+  destruct v as [k sg infos strs]. unfold enc_value, view. cbn [bv_kind bv_sig bv_infos bv_strs].
+  destruct (has_sig k), (has_info k), (has_strs k); reflexivity.
+Qed.
+
+Lemma view_wf v : wf_value v -> view v = v.
+Proof.
+  destruct v as [k sg infos strs]. unfold wf_value, view. cbn [bv_kind bv_sig bv_infos bv_strs].
+  intros [Hs [Hi Hl]].
+  destruct (has_sig k); [|subst sg];
+  (destruct (has_info k); [|subst infos]);
+  (destruct (has_strs k); [|subst strs]); reflexivity.
+Qed.
+
+Lemma view_move_assign dst src : view (move_assign dst src) = view src.
+Proof.
+  unfold view, move_assign. cbn [bv_kind bv_sig bv_infos bv_strs].
+  destruct (has_strs (bv_kind src)); reflexivity.
+Qed.
+
+Lemma enc_move_assign dst src : enc_value (move_assign dst src) = enc_value src.
+Proof. rewrite <- enc_value_view, view_move_assign. apply enc_value_view. Qed.
+
+Lemma dec_move_assign dst src : wf_value src -> dec_value (enc_value (move_assign dst src)) = Some src.
+Proof. intros H. rewrite enc_move_assign. apply dec_value_enc. exact H. Qed.
+
+Lemma view_assign_all vs : forall dst v, view (assign_all dst (vs ++ [v])) = view v.
+Proof.
+  intros dst v. unfold assign_all. rewrite fold_left_app. cbn [fold_left]. apply view_move_assign.
+Qed.
+
+Lemma enc_assign_all vs dst v : enc_value (assign_all dst (vs ++ [v])) = enc_value v.
+Proof. rewrite <- enc_value_view, view_assign_all. apply enc_value_view. Qed.
+
+(* the guard matters: a model of the variant "transfer only a non-empty list" is NOT canonical (regression witness for
+   the differential: StaleFileRemoval([]) assigned over StaleFileRemoval(["a"])) *)
+Definition move_assign_if_nonempty (dst src : bvalue) : bvalue :=
+  mkBV (bv_kind src) (bv_sig src) (bv_infos src)
+       (match bv_strs src with [] => bv_strs dst | _ => bv_strs src end).
+
+Lemma assign_instance :
+  exists dst src, wf_value dst /\ wf_value src /\ bv_strs dst <> [] /\ bv_strs src = [] /\
+                  enc_value (move_assign dst src) = enc_value src /\
+                  enc_value (move_assign_if_nonempty dst src) <> enc_value src.
+Proof.
+  exists (mkBV VStaleFileRemoval 0 [] [[97]]), (mkBV VStaleFileRemoval 0 [] []).
+  split; [|split; [|split; [|split; [|split]]]].
+  - unfold wf_value, u64; cbn. repeat split; lia.
+  - unfold wf_value, u64; cbn. repeat split; lia.
+  - cbn. discriminate.
+  - reflexivity.
+  - apply enc_move_assign.
+  - vm_compute. discriminate.
+Qed.
+
+Lemma assign_roundtrip dst src : wf_value src ->
+  view (move_assign dst src) = src /\ dec_value (enc_value (move_assign dst src)) = Some src.
+Proof.
+  intros H. split; [rewrite view_move_assign; apply view_wf; exact H | apply dec_move_assign; exact H].
+Qed.
+
+Lemma assign_history dst vs v :
+  enc_value (assign_all dst (vs ++ [v])) = enc_value v /\ view (assign_all dst (vs ++ [v])) = view v.
+Proof. split; [apply enc_assign_all | apply view_assign_all]. Qed.
+
 (* ---------- BuildKey ---------- *)
 
 Lemma dec_named_enc n p : u32 (N.of_nat (length n)) -> dec_named (enc_named n p) = Some (n, p).
@@ -139,6 +207,17 @@ Lemma enc_key_injective k1 k2 : wf_key k1 -> wf_key k2 -> enc_key k1 = enc_key k
 Proof.
   intros H1 H2 E. apply dec_key_enc in H1. apply dec_key_enc in H2. rewrite E in H1. congruence.
 Qed.
+
+(* reading the size through sign-extended bytes (a `char`-typed read of the size field) gives another number as soon as
+   one byte is >= 0x80: the reason why lengths 128 and 32768 are in the differential's corpus *)
+Definition sext8 (b : N) : N := if b <? 128 then b else 4294967040 + b.      (* uint32_t(int8_t(b)) *)
+Definition dec32_signed_bytes (b0 b1 b2 b3 : N) : N :=
+  N.lor (sext8 b0) (N.lor (N.shiftl (sext8 b1) 8 mod 4294967296)
+        (N.lor (N.shiftl (sext8 b2) 16 mod 4294967296) (N.shiftl (sext8 b3) 24 mod 4294967296))).
+Lemma signed_byte_read_differs :
+  dec32_signed_bytes 127 0 0 0 = 127 /\ dec32_signed_bytes 44 1 0 0 = 300 /\
+  dec32_signed_bytes 128 0 0 0 <> 128 /\ dec32_signed_bytes 0 128 0 0 <> 32768.
+Proof. repeat split; vm_compute; try reflexivity; discriminate. Qed.
 
 (* ---------- decidable checks over probed tables ---------- *)
 
@@ -178,3 +257,63 @@ Proof.
   - intros c Hc Hk. rewrite forallb_forall in H2. specialize (H2 c). cbv zeta in H2.
     apply N.ltb_lt in Hk. rewrite Hk in H2. apply N.eqb_eq. apply H2. apply in_seq. lia.
 Qed.
+
+(* ---------- decidable equality of keys (so that examples on long names are checked by computation to a bool:
+   reading a 32768-element normal form back overflows the stack) ---------- *)
+
+Fixpoint list_bytes_eqb (a b : list bytes) : bool :=
+  match a, b with [], [] => true | x :: a', y :: b' => list_N_eqb x y && list_bytes_eqb a' b' | _, _ => false end.
+Lemma list_bytes_eqb_eq a b : list_bytes_eqb a b = true -> a = b.
+Proof.
+  revert b; induction a as [|x a IH]; intros [|y b] H; cbn in H; try discriminate; [reflexivity|].
+  apply andb_true_iff in H. destruct H as [H1 H2]. apply list_N_eqb_eq in H1. subst. f_equal. auto.
+Qed.
+
+Definition bkey_eqb (k1 k2 : bkey) : bool :=
+  match k1, k2 with
+  | KCommand a, KCommand b | KDirectoryContents a, KDirectoryContents b | KNode a, KNode b
+  | KStat a, KStat b | KTarget a, KTarget b => list_N_eqb a b
+  | KCustomTask a d, KCustomTask b e => list_N_eqb a b && list_N_eqb d e
+  | KFilteredDirectoryContents a f, KFilteredDirectoryContents b g
+  | KDirectoryTreeSignature a f, KDirectoryTreeSignature b g
+  | KDirectoryTreeStructureSignature a f, KDirectoryTreeStructureSignature b g => list_N_eqb a b && list_bytes_eqb f g
+  | _, _ => false
+  end.
+Lemma bkey_eqb_eq k1 k2 : bkey_eqb k1 k2 = true -> k1 = k2.
+Proof.
+  destruct k1, k2; cbn [bkey_eqb]; intros H; try discriminate;
+    try (apply list_N_eqb_eq in H; subst; reflexivity);
+    apply andb_true_iff in H; destruct H as [H1 H2]; apply list_N_eqb_eq in H1; subst;
+    try (apply list_N_eqb_eq in H2; subst; reflexivity);
+    apply list_bytes_eqb_eq in H2; subst; reflexivity.
+Qed.
+
+Definition key_roundtrips (k : bkey) : bool :=
+  match dec_key (enc_key k) with Some k' => bkey_eqb k' k | None => false end.
+Lemma key_roundtrips_spec k : key_roundtrips k = true -> dec_key (enc_key k) = Some k.
+Proof.
+  unfold key_roundtrips. destruct (dec_key (enc_key k)) as [k'|]; [|discriminate].
+  intros H. apply bkey_eqb_eq in H. subst. reflexivity.
+Qed.
+
+(* [wf_key] bounds the name length by 2^32 only: every byte of the 32-bit size field is exercised, in particular the
+   values >= 0x80 of the low byte (length 128) and of the second byte (length 32768). Computed, not derived. *)
+Definition key_len128 : bkey := KCustomTask (repeat 97 128) [1; 0; 255].
+Definition key_len32768 : bkey := KFilteredDirectoryContents (repeat 47 (N.to_nat 32768)) [[42; 46; 111]; [128]].
+Definition key_len32768s : bkey := KDirectoryTreeStructureSignature (repeat 200 (N.to_nat 33000)) [].
+
+Lemma key_len128_roundtrip :
+  wf_key key_len128 /\ firstn 5 (enc_key key_len128) = [88; 128; 0; 0; 0] /\
+  dec_key (enc_key key_len128) = Some key_len128.
+Proof. split; [|split]; [| |apply key_roundtrips_spec]; vm_compute; reflexivity. Qed.
+
+Lemma key_len32768_roundtrip :
+  wf_key key_len32768 /\ firstn 5 (enc_key key_len32768) = [100; 0; 128; 0; 0] /\
+  dec_key (enc_key key_len32768) = Some key_len32768.
+Proof. split; [split; [|split]|split; [|apply key_roundtrips_spec]]; vm_compute; reflexivity. Qed.
+
+Lemma key_len32768s_roundtrip :
+  wf_key key_len32768s /\ firstn 5 (enc_key key_len32768s) = [115; 232; 128; 0; 0] /\
+  dec_key (enc_key key_len32768s) = Some key_len32768s.
+Proof. split; [split; [|split]|split; [|apply key_roundtrips_spec]]; vm_compute; reflexivity. Qed.
+
